@@ -871,7 +871,7 @@ Proof.
     destruct (get th (thinst s)) as [i|] eqn:Et; [|discriminate]. destruct (get i (insts s)) as [x|] eqn:Ex; [|discriminate].
     destruct (pc x) eqn:Ep; try discriminate H.
     destruct (Nat.ltb 0 (o_sd_done o)) eqn:Hsd; [|reflexivity]. apply Nat.ltb_lt in Hsd.
-    destruct (iv_after _ _ HI Hsd i x Ex) as [Hm|Hn]; [exact Hm|]. unfold nl in Hn. rewrite Ep in Hn. discriminate.
+    destruct (iv_after _ _ HI Hsd i x Ex) as [Hm|Hn]; [rewrite Hm; reflexivity|]. unfold nl in Hn. rewrite Ep in Hn. discriminate.
   - (* EShutdownEnd *)
     destruct (sdend_guard _ _ _ H) as (order & Hdp & Had).
     pose proof (iv_sd _ _ HI th order Hdp) as Hcur. rewrite Hcur.
